@@ -196,9 +196,12 @@ func (h *hist) index(m []int, script ctrl.Script) {
 	// did a scanner that needs the network scan a layer of this manifest under
 	// another state of the network than the present one? (the last scan of a
 	// pair is the one whose results are stored)
-	last := map[string]bool{}
+	// (artifacts of a failed attempt stay, so any earlier scan counts, not only the last)
+	other := map[string]bool{}
 	for _, ev := range h.s.W.Scans {
-		last[fmt.Sprintf("%d|%v", ev.Layer, ev.Scanner)] = ev.Down
+		if ev.Down != h.s.W.NetDown {
+			other[fmt.Sprintf("%d|%v", ev.Layer, ev.Scanner)] = true
+		}
 	}
 	taint := false
 	for _, k := range keys {
@@ -207,7 +210,7 @@ func (h *hist) index(m []int, script ctrl.Script) {
 			continue
 		}
 		for _, l := range m {
-			if d, seen := last[fmt.Sprintf("%d|%v", l, k)]; seen && d != h.s.W.NetDown {
+			if other[fmt.Sprintf("%d|%v", l, k)] {
 				taint = true
 			}
 		}
